@@ -163,3 +163,30 @@ Proof.
   intros s k v. unfold Options_add. rewrite options_add_to_group_src. cbn [o_step].
   destruct (o_add_group k v s) as [s' [[]|]]; reflexivity.
 Qed.
+
+(* ---------- Options.add_to_context / validate_can_add_to_context / Options.set ---------- *)
+Lemma validate_can_add_to_context_src : forall k v g c,
+  OptionsValidator_validate_can_add_to_context k v g c = if add_group_rejects k v c g then Raise ValueError else Ok tt.
+Proof.
+  intros k v g c. unfold OptionsValidator_validate_can_add_to_context, add_group_rejects.
+  rewrite (py_dict_mem_kmem k g), py_dict_mem_dget, py_dict_getitem_dget.
+  destruct (dget k c) as [v0|]; cbn [orb].
+  - destruct (py_eq v v0); cbn [negb orb]; [|reflexivity]. destruct (kmem k (dkeys g)); reflexivity.
+  - destruct (kmem k (dkeys g)); reflexivity.
+Qed.
+
+Lemma options_add_to_context_src : forall s k v, Options_add_to_context s k v = of_oerr (o_add_context k v s).
+Proof.
+  intros s k v. unfold Options_add_to_context, o_add_context. rewrite validate_can_add_to_context_src. unfold add_group_rejects.
+  destruct (match dget k (oc s) with Some v0 => negb (py_eq v v0) | None => false end); cbn [orb]; [reflexivity|].
+  destruct (kmem k (dkeys (og s))); [reflexivity|].
+  rewrite py_dict_set_dset. reflexivity.
+Qed.
+
+(* Options.set never raises *)
+Lemma options_set_src : forall s k v, Options_set s k v = (tt, fst (o_set k v s)) /\ snd (o_set k v s) = None.
+Proof.
+  intros s k v. unfold Options_set, o_set. rewrite !py_dict_mem_kmem, !py_dict_set_dset.
+  destruct (kmem k (dkeys (og s))); [split; reflexivity|].
+  destruct (kmem k (dkeys (oc s))); split; reflexivity.
+Qed.
